@@ -84,6 +84,11 @@ class Fold:
     def of_seq(self, seq):
         return self.sfn(seq)
 
+    def elim_seq(self, seq, x):
+        """∀-elimination on the Seq carrier: a member of a sequence all of whose elements satisfy pred
+        satisfies pred"""
+        return z3.Implies(z3.And(self.sfn(seq), z3.Contains(seq, z3.Unit(x))), self.pred(x))
+
     def elim(self, v, a, b):
         """∀-elimination: the fold over the first a items of v gives pred at any index b < a
         (an instance of the meaning of the spec function, `tfn(v, a)  <=>  ∀ j < a. pred(item j)`)"""
